@@ -15,7 +15,7 @@
 The order of the statements, the branches and the loops of the Python function are forgotten:
 the semantics below lets the statements of the body run in **any order, any number of times**
 (`Trace`), which over-approximates every control flow of the function.  The analysis computes for
-every variable the set of parameters whose *initial* buffer it may refer to (`solve`) and `safe`
+every variable the set of parameters whose *entry* buffer it may refer to (`solve`) and `safe`
 says that no `write` goes through a variable that may refer to a protected parameter's buffer.
 The soundness theorem is `Proofs.Effects.safe_sound` (Proofs/EffectsSound.lean).
 
@@ -43,78 +43,80 @@ structure Kernel where
   nparams : Nat
   /-- the parameters the function must not modify -/
   protectedParams : List Nat
+  /-- the variable that holds the result (the array of the result for tensor-valued functions) -/
+  ret : Nat
   body : List Stmt
 deriving Repr
 
 /-! ### Flow-insensitive may-alias analysis
 
-`pts[v]` = the parameters ("roots") whose initial buffer `v` may refer to.  Every assignment is a
-weak update (sets only grow). -/
+The points-to map records, for every variable `v`, the parameters ("roots") whose *entry* buffer
+`v` may refer to.  It is one natural number: bit `v * nparams + p` says "`v` may refer to the
+entry buffer of parameter `p`" (row `v` = the `nparams` bits starting at `v * nparams`).  A single
+number rather than a list of lists because the kernel evaluates `Nat` bit operations natively
+(`decide +kernel` over the whole table: 13 s with lists, about 1 s with bits).  Every assignment is
+a weak update (rows only grow). -/
 
-abbrev Pts := List (List Nat)
+abbrev Pts := Nat
 
-def look (pts : Pts) (v : Nat) : List Nat := pts.getD v []
+/-- `v` may refer to the entry buffer of parameter `p` -/
+def hasRoot (np : Nat) (pts : Pts) (v p : Nat) : Bool := pts.testBit (v * np + p)
 
-def insertNew (acc : List Nat) (x : Nat) : List Nat := if acc.contains x then acc else acc ++ [x]
-
-def union (a b : List Nat) : List Nat := b.foldl insertNew a
-
-def subset (a b : List Nat) : Bool := a.all (fun x => b.contains x)
+/-- the roots of `v` as a bit mask -/
+def row (np : Nat) (pts : Pts) (v : Nat) : Nat := (pts >>> (v * np)) % 2 ^ np
 
 /-- the roots reachable through any of the source variables -/
-def srcRoots (pts : Pts) (srcs : List Nat) : List Nat :=
-  srcs.foldl (fun acc u => union acc (look pts u)) []
+def srcRoots (np : Nat) (pts : Pts) (srcs : List Nat) : Nat :=
+  srcs.foldl (fun acc u => acc ||| row np pts u) 0
 
-def stepStmt (pts : Pts) : Stmt → Pts
-  | .assign v (.alias srcs) => pts.set v (union (look pts v) (srcRoots pts srcs))
+def stepStmt (np : Nat) (pts : Pts) : Stmt → Pts
+  | .assign v (.alias srcs) => pts ||| (srcRoots np pts srcs <<< (v * np))
   | _ => pts
 
 /-- one pass over the body -/
-def pass (pts : Pts) (body : List Stmt) : Pts := body.foldl stepStmt pts
+def pass (np : Nat) (pts : Pts) (body : List Stmt) : Pts := body.foldl (stepStmt np) pts
 
-def closedStmt (pts : Pts) : Stmt → Bool
-  | .assign v (.alias srcs) => srcs.all (fun u => subset (look pts u) (look pts v))
+def closedStmt (np : Nat) (pts : Pts) : Stmt → Bool
+  | .assign v (.alias srcs) => srcs.all (fun u => (row np pts u ||| row np pts v) == row np pts v)
   | _ => true
 
 /-- `pts` is a post-fixpoint: every parameter is its own root and every `alias` assignment is
     accounted for.  This (not the way `pts` was computed) is what soundness rests on. -/
 def closed (nparams : Nat) (pts : Pts) (body : List Stmt) : Bool :=
-  (List.range nparams).all (fun p => (look pts p).contains p) && body.all (closedStmt pts)
+  (List.range nparams).all (fun p => hasRoot nparams pts p p) && body.all (closedStmt nparams pts)
 
-def stmtVars : Stmt → List Nat
-  | .assign v .fresh => [v]
-  | .assign v (.alias srcs) => v :: srcs
-  | .write v => [v]
-
-/-- number of variables of a kernel (1 + the largest variable mentioned, at least `nparams`) -/
-def nvars (k : Kernel) : Nat :=
-  k.body.foldl (fun m s => (stmtVars s).foldl (fun m v => max m (v + 1)) m) k.nparams
-
-def initPts (k : Kernel) : Pts :=
-  (List.range (nvars k)).map (fun v => if v < k.nparams then [v] else [])
+def initPts (np : Nat) : Pts := (List.range np).foldl (fun acc p => acc ||| 1 <<< (p * np + p)) 0
 
 def iterate (nparams : Nat) (body : List Stmt) : Nat → Pts → Pts
   | 0, pts => pts
-  | fuel + 1, pts => if closed nparams pts body then pts else iterate nparams body fuel (pass pts body)
+  | fuel + 1, pts =>
+    let next := pass nparams pts body
+    if next == pts then pts else iterate nparams body fuel next
 
-def solve (k : Kernel) : Pts := iterate k.nparams k.body (k.body.length + 1) (initPts k)
+def solve (k : Kernel) : Pts := iterate k.nparams k.body (k.body.length + 1) (initPts k.nparams)
 
 /-- no `write` goes through a variable that may refer to a protected parameter's buffer -/
-def writesOk (pts : Pts) (prot : List Nat) (body : List Stmt) : Bool :=
+def writesOk (np : Nat) (pts : Pts) (prot : List Nat) (body : List Stmt) : Bool :=
   body.all fun
-    | .write v => (look pts v).all (fun p => !prot.contains p)
+    | .write v => (List.range np).all (fun p => !(hasRoot np pts v p && prot.contains p))
     | _ => true
 
 /-- the judgement that `decide` evaluates for every kernel of the generated table -/
 def safe (k : Kernel) : Bool :=
-  closed k.nparams (solve k) k.body && writesOk (solve k) k.protectedParams k.body
+  closed k.nparams (solve k) k.body && writesOk k.nparams (solve k) k.protectedParams k.body
 
 /-- every parameter is protected (there is no output parameter) -/
 def allProtected (k : Kernel) : Bool :=
   (List.range k.nparams).all (fun p => k.protectedParams.contains p)
 
-/-- the variables whose value may share memory with a parameter (diagnostics: which results are views) -/
-def mayAliasParam (k : Kernel) (v : Nat) : Bool := !(look (solve k) v).isEmpty
+/-- the result variable can refer to no buffer that existed on entry: the function returns
+    storage independent of everything it was given (`clone`, `detach`) -/
+def returnsFresh (k : Kernel) : Bool :=
+  closed k.nparams (solve k) k.body && row k.nparams (solve k) k.ret == 0
+
+/-- the parameters whose entry buffer the result may share (diagnostics: which results are views) -/
+def resultRoots (k : Kernel) : List Nat :=
+  (List.range k.nparams).filter (fun p => hasRoot k.nparams (solve k) k.ret p)
 
 /-! ### Concrete semantics with aliasing
 
